@@ -394,7 +394,7 @@ pub fn property() -> Property {
         minimise: None,
         subs: vec![
             Sub::Custom(CustomSub { name: "string-tables", run: string_tables, replay: replay_string_tables }),
-            Sub::Bytes(BytesSub { name: "documents", f: documents, max_len: 1500, quick: Budget { threads: 8, cases: 4000 }, thorough: Budget { threads: 16, cases: 200_000 }, keep_unreproducible: false }),
+            Sub::Bytes(BytesSub { name: "documents", f: documents, max_len: 4000, quick: Budget { threads: 8, cases: 4000 }, thorough: Budget { threads: 16, cases: 200_000 }, keep_unreproducible: false }),
             Sub::Bytes(BytesSub { name: "scalars", f: scalars, max_len: 64, quick: Budget { threads: 8, cases: 10_000 }, thorough: Budget { threads: 16, cases: 1_000_000 }, keep_unreproducible: false }),
             Sub::Bytes(BytesSub { name: "large", f: large, max_len: 16, quick: Budget { threads: 8, cases: 60 }, thorough: Budget { threads: 16, cases: 3000 }, keep_unreproducible: false }),
             Sub::Bytes(BytesSub { name: "deep", f: deep, max_len: 200, quick: Budget { threads: 4, cases: 1000 }, thorough: Budget { threads: 16, cases: 50_000 }, keep_unreproducible: false }),
